@@ -174,9 +174,21 @@ class TemplateData(object):
         # Do not wire more than once
         if self._is_wired:
             return
-        else:
-            self._is_wired = True
 
+        try:
+            self._wire_all_subsets()
+        except Exception:
+            # Leave nothing half-built behind, so that another attempt fails
+            # the same way instead of passing off a partial structure as wired.
+            if self.is_compressed:
+                self.decoded_nodes_all_subsets = [[]] * self.n_subsets
+            else:
+                self.decoded_nodes_all_subsets = [[] for _ in range(self.n_subsets)]
+            self.decoded_nodes = [] if not self.decoded_nodes_all_subsets else self.decoded_nodes_all_subsets[0]
+            raise
+        self._is_wired = True
+
+    def _wire_all_subsets(self):
         # For compressed data, the wiring is the same for all subsets.
         n_subsets = 1 if self.is_compressed else self.n_subsets
 
